@@ -62,18 +62,20 @@ private:
 	std::map<int, Client> clients;
 	std::map<int, LP> lps; bool stop = false;
 	std::map<std::string, RefResult> ref_cache;
-	struct Outcome { std::string config; int status; Q value; int step; };
+	struct Outcome { std::string how, config; int status; Q value; int step; };
 	std::map<std::string, std::vector<Outcome>> outcomes;   // C04: canonical LP -> definitive outcomes
 	const RefResult &truth(const LP &lp);
 	void end_of_history();
 	std::vector<std::pair<Obj *, std::string>> others_before;
 	void snapshot_others(Obj *target);
 	void compare_others(const std::string &what);
-	std::string cur_prop_hint;
+	std::string cur_prop_hint; unsigned cur_precision = 128;
+	std::set<std::string> avoid;   // shapes of unrepaired known findings owned by other properties (plan knob "avoid")
+	bool avoiding(const std::string &t) const { return avoid.count(t) != 0; }
 
 	// infrastructure
 	void T(const std::string &line);                                  // transcript line
-	void violate(const std::string &prop, const std::string &cls, const std::string &detail, bool hard = true);
+	void violate(const std::string &prop, const std::string &cls, const std::string &detail, bool hard = false);
 	void probe(const std::string &name, long n = 1) { res.probes[name] += n; }
 	void nontrivial(const std::string &prop) { res.nontrivial[prop]++; }
 	void signature(const std::string &what);
